@@ -550,14 +550,20 @@ fn corpus_ignore(args: &[String]) {
         let top: Vec<(usize, usize)> = ast.nodes().stmts().filter_map(|s| Some((s.start_position()?.bytes(), s.end_position()?.bytes()))).collect();
         let spans: Vec<(usize, usize)> = sp.0.into_iter().filter(|x| src.len() <= max_nested || top.contains(x)).collect();
         let line_start = |p: usize| src[..p].rfind('\n').map(|i| i + 1).unwrap_or(0);
-        let mut cases: Vec<(String, String, String)> = vec![];   // (kind, modified source, text that must survive)
+        let mut cases: Vec<(String, String, String, Option<(usize, usize)>)> = vec![];   // (kind, modified source, text that must survive, formatting range)
+        let all_spans = spans.clone();
         for (a, b) in spans {
             if a >= b || b > src.len() { continue }
             if full_moon::parse_fallible(&src[a..b], cfg.syntax.into()).into_result().is_err() { continue }
             let ls = line_start(a);
             if !src[ls..a].trim().is_empty() { continue }    // the statement does not start its line: a directive cannot be put above it alone
             let indent = &src[ls..a];
-            cases.push((format!("ignore@{a}"), format!("{}{}-- stylua: ignore\n{}", &src[..ls], indent, &src[ls..]), src[a..b].to_string()));
+            let directive = format!("{}-- stylua: ignore\n", indent);
+            cases.push((format!("ignore@{a}"), format!("{}{}{}", &src[..ls], directive, &src[ls..]), src[a..b].to_string(), None));
+            // the directive wins over the range: with the range set to a statement nested in the ignored one, it still comes out verbatim
+            if let Some((c, d)) = all_spans.iter().find(|(c, d)| a < *c && *d < b) {
+                cases.push((format!("ignore@{a}+range@{c}"), format!("{}{}{}", &src[..ls], directive, &src[ls..]), src[a..b].to_string(), Some((c + directive.len(), d + directive.len()))));
+            }
         }
         for wnd in top.windows(2) {
             let ((a, _), (_, b2)) = (wnd[0], wnd[1]);
@@ -566,12 +572,13 @@ fn corpus_ignore(args: &[String]) {
             let le = src[b2..].find('\n').map(|i| b2 + i + 1).unwrap_or(src.len());
             if full_moon::parse_fallible(&src[a..b2], cfg.syntax.into()).into_result().is_err() { continue }
             let tail_nl = if le == src.len() && !src.ends_with('\n') { "\n" } else { "" };
-            cases.push((format!("region@{a}"), format!("{}-- stylua: ignore start\n{}{}-- stylua: ignore end\n{}", &src[..ls], &src[ls..le], tail_nl, &src[le..]), src[a..b2].to_string()));
+            cases.push((format!("region@{a}"), format!("{}-- stylua: ignore start\n{}{}-- stylua: ignore end\n{}", &src[..ls], &src[ls..le], tail_nl, &src[le..]), src[a..b2].to_string(), None));
         }
-        for (kind, text, keep) in cases {
+        for (kind, text, keep, rng) in cases {
             if full_moon::parse_fallible(&text, cfg.syntax.into()).into_result().is_err() { continue }
             runs += 1;
-            let res = std::panic::catch_unwind(|| format_code(&text, cfg, None, OutputVerification::None));
+            let range = rng.map(|(c, d)| Range::from_values(Some(c), Some(d)));
+            let res = std::panic::catch_unwind(|| format_code(&text, cfg, range, OutputVerification::None));
             let out = match res { Err(_) => { failures.push(json!({"file": path, "case": kind, "kind": "panic", "detail": "formatter panicked"})); continue }
                                   Ok(Err(e)) => { failures.push(json!({"file": path, "case": kind, "kind": "error", "detail": e.to_string()})); continue } Ok(Ok(o)) => o };
             if !out.contains(&keep) {
